@@ -363,3 +363,49 @@ def lookup_closed(ctx, fn_name):
     closed = {(a[1], b[1], kd) for a, b, kd in sm if a[0] == 'const' and b[0] == 'lit'}
     open_ = {(a, b, kd) for a, b, kd in sm if not (a[0] == 'const' and b[0] == 'lit')}
     return closed, open_
+
+
+def _skip_test(c):
+    """(call, negated) when the condition is `is_skipped(<elem>.attrs, target_os)` possibly under `!`s; else None."""
+    neg = False
+    c = vt.strip(c)
+    while isinstance(c, dict) and c.get('k') == 'op' and c.get('op') == '!' and len(c.get('args', [])) == 1:
+        neg = not neg
+        c = vt.strip(c['args'][0])
+    if not (isinstance(c, dict) and c.get('k') == 'call' and c.get('recv') is None and str(c.get('f')) == 'is_skipped' and len(c.get('args', [])) == 2):
+        return None
+    a0, a1 = vt.strip(c['args'][0]), vt.strip(c['args'][1])
+    if not (vt.show(a0).endswith('.attrs') and vt.show(a1) == 'target_os'):
+        return None
+    return c, neg
+
+
+def loop_skip_filter(frames):
+    """The loop form of `members.iter().filter(|m| !is_skipped(&m.attrs, target_os))`:
+
+        for m in members { if is_skipped(&m.attrs, target_os) { continue; }  <here> }
+        for m in members { if !is_skipped(&m.attrs, target_os) { <here> } }
+
+    Returns (for-frame, [other conditional frames between the `for` and <here>]) when <here> is reached only for
+    non-skipped members of the innermost enclosing `for`, else None.  The `other` frames are further conditions under which a
+    member is (not) taken — rules that demand "exactly one filter" look at them."""
+    fi = max((i for i, fr in enumerate(frames) if fr.get('k') == 'for'), default=None)
+    if fi is None:
+        return None
+    loop = frames[fi]
+    over = vt.show(vt.strip(loop.get('over') or loop.get('c') or {}))
+    found, other = False, []
+    for fr in frames[fi + 1:]:
+        if fr.get('k') not in ('if', 'arm'):
+            continue
+        t = _skip_test(fr.get('c')) if fr.get('k') == 'if' else None
+        if t is not None:
+            call, neg = t
+            # reached-when-true polarity of the frame: an enclosing `if c` holds c; an early-exit `if c {continue}` holds !c
+            holds_not_skipped = (neg != bool(fr.get('neg')))
+            member = vt.show(vt.strip(call['args'][0]))
+            if holds_not_skipped and (not over or over in member or 'each(' in member):
+                found = True
+                continue
+        other.append(fr)
+    return (loop, other) if found else None
